@@ -22,6 +22,23 @@ def _sha(b: bytes) -> str:
 
 
 def run(spec):
+    """With spec['perturb'] = seed the joblib task functions are wrapped with seeded sleeps (vf.instruments.scheduler)."""
+    if spec.get("perturb") is not None and not spec.get("_perturbed"):
+        from vf.instruments import scheduler
+
+        with scheduler.perturb(int(spec["perturb"])) as trace:
+            out = run(dict(spec, _perturbed=True))
+        if isinstance(out, dict):
+            out["sched_threads"] = trace.threads()
+            out["sched_out_of_order_kinds"] = trace.out_of_order()
+            out["sched_tasks"] = len(trace.events)
+            out["sched_missing"] = trace.missing
+            out["sched_signature"] = hashlib.sha256(json.dumps(sorted((k, list(v)) for k, v in trace.completion_signature().items())).encode()).hexdigest()[:12]
+        return out
+    return _run(spec)
+
+
+def _run(spec):
     from vf import core
     from vf.instruments import pipeline, recorder
     from vf.oracles import cv
